@@ -72,6 +72,9 @@ func FindNaluTypes(sample []byte) []NaluType {
 		pos += 4
 		naluType := GetNaluType(sample[pos])
 		naluList = append(naluList, naluType)
+		if uint64(pos)+uint64(naluLength) > uint64(length) {
+			break // bad length field, no more NALUs
+		}
 		pos += naluLength
 	}
 	return naluList
@@ -90,6 +93,9 @@ func FindNaluTypesUpToFirstVideoNALU(sample []byte) []NaluType {
 		pos += 4
 		naluType := GetNaluType(sample[pos])
 		naluList = append(naluList, naluType)
+		if uint64(pos)+uint64(naluLength) > uint64(length) {
+			break // bad length field, no more NALUs
+		}
 		pos += naluLength
 		if IsVideoNaluType(naluType) {
 			break // first video nalu
